@@ -42,13 +42,15 @@ def j2f(j):
 def spec_to_json(s):
     return {"code": s["code"], "pred": [list(p) for p in s["pred"]],
             "td": [[k, f2j(v)] for k, v in s["td"]], "fd": [[k, f2j(v)] for k, v in s["fd"]],
-            "cov": s["cov"], "chk": s["chk"]}
+            "cov": s["cov"], "chk": s["chk"], "instr": list(s.get("instr", [])),
+            "asserts": [list(a) for a in s.get("asserts", [])]}
 
 
 def spec_from_json(j):
     return {"code": list(j["code"]), "pred": [tuple(p) for p in j["pred"]],
             "td": [(k, j2f(v)) for k, v in j["td"]], "fd": [(k, j2f(v)) for k, v in j["fd"]],
-            "cov": list(j["cov"]), "chk": list(j["chk"])}
+            "cov": list(j["cov"]), "chk": list(j["chk"]), "instr": list(j.get("instr", [])),
+            "asserts": [tuple(a) for a in j.get("asserts", [])]}
 
 
 # ------------------------------------------------------------------------------------------------
@@ -103,9 +105,23 @@ def gen_registry(rng, small=False):
 
 # ------------------------------------------------------------------------------------------------
 # traces
+class StubAssertion:
+    """Stands in for pynguin.assertion.assertion.Assertion inside an ExecutedAssertion."""
+
+    def __init__(self, aid):
+        self.aid = aid
+        self.checked_instructions = []
+
+    def __repr__(self):
+        return f"StubAssertion({self.aid})"
+
+
 def build_trace(spec):
-    """A fresh real ExecutionTrace holding exactly the spec (insertion orders preserved)."""
-    from pynguin.instrumentation.tracer import ExecutionTrace
+    """A fresh real ExecutionTrace holding exactly the spec (insertion orders preserved).
+    Instruction tags become real ExecutedInstruction objects (tag stored in instr_original_index),
+    (position, id) pairs become real ExecutedAssertion objects."""
+    import pynguin.slicer.executedinstruction as ei
+    from pynguin.instrumentation.tracer import ExecutedAssertion, ExecutionTrace
 
     t = ExecutionTrace()
     t.executed_code_objects.update(spec["code"])
@@ -117,13 +133,22 @@ def build_trace(spec):
         t.false_distances[k] = v
     t.covered_line_ids.update(spec["cov"])
     t.checked_lines.update(spec["chk"])
+    for tag in spec.get("instr", []):
+        t.executed_instructions.append(ei.ExecutedInstruction("stub.py", 0, 0, 9, None, 1, tag))
+    for pos, aid in spec.get("asserts", []):
+        t.executed_assertions.append(ExecutedAssertion(pos, StubAssertion(aid)))
     return t
 
 
-def project(t):
+def project(t, tagger=None, aider=None):
+    """Plain data of a trace, INCLUDING the instruction tags and the assertion positions."""
+    tagger = tagger or (lambda i: i.instr_original_index)
+    aider = aider or (lambda a: getattr(a, "aid", 0))
     return {"code": list(t.executed_code_objects), "pred": list(t.executed_predicates.items()),
             "td": list(t.true_distances.items()), "fd": list(t.false_distances.items()),
-            "cov": list(t.covered_line_ids), "chk": list(t.checked_lines)}
+            "cov": list(t.covered_line_ids), "chk": list(t.checked_lines),
+            "instr": [tagger(i) for i in t.executed_instructions],
+            "asserts": [(a.trace_position, aider(a.assertion)) for a in t.executed_assertions]}
 
 
 def canon(spec):
@@ -162,7 +187,21 @@ def gen_valid_trace(rng, reg_ids, extra_codes=()):
     rng.shuffle(lines)
     t.covered_line_ids.update(l for l in lines if rng.random() < 0.45)
     t.checked_lines.update(l for l in lines if rng.random() < 0.25)
-    return project(t)
+    spec = project(t)
+    spec["instr"], spec["asserts"] = gen_instr_part(rng)
+    return spec
+
+
+def gen_instr_part(rng, malformed=False):
+    """Instruction tags (unique) and executed assertions (position inside the list, unique id)."""
+    n = rng.choice([0, 0, 1, 3, 6, 12])
+    instr = [rng.randrange(10**6) for _ in range(n)]
+    k = rng.choice([0, 1, 1, 2, 3]) if (n or malformed) else 0
+    if malformed:
+        pos = sorted(rng.randrange(-2, n + 3) for _ in range(k))
+    else:
+        pos = sorted(rng.randrange(n) for _ in range(k))
+    return instr, [(p, rng.randrange(10**6)) for p in pos]
 
 
 def gen_malformed_trace(rng, reg_ids):
@@ -175,7 +214,8 @@ def gen_malformed_trace(rng, reg_ids):
     return {"code": rng.sample(ids, rng.randrange(0, 4)),
             "pred": [(k, rng.choice([-1, 0, 1, 2, 3])) for k in rng.sample(ids, rng.randrange(0, 5))],
             "td": dd(), "fd": dd(),
-            "cov": rng.sample(ids, rng.randrange(0, 4)), "chk": rng.sample(ids, rng.randrange(0, 3))}
+            "cov": rng.sample(ids, rng.randrange(0, 4)), "chk": rng.sample(ids, rng.randrange(0, 3)),
+            **dict(zip(("instr", "asserts"), gen_instr_part(rng, malformed=True)))}
 
 
 def py_valid(spec, reg_ids):
@@ -223,9 +263,51 @@ def ctrace(spec) -> str:
         czlist(spec["cov"]), czlist(spec["chk"]))
 
 
+def citrace(spec) -> str:
+    return "(C11.Build_itrace %s %s)" % (
+        czlist(spec.get("instr", [])), clist(f"({zlit(p)}, {zlit(a)})" for p, a in spec.get("asserts", [])))
+
+
 def cregistry(reg_ids) -> str:
     return "(C10.Build_registry %s %s %s)" % (
         czlist(reg_ids["branchless"]), czlist(reg_ids["predicates"]), czlist(reg_ids["lines"]))
+
+
+def run_forked(fn, job, timeout=240):
+    """Run fn(job) in a forked child (own pynguin configuration / import hooks); returns its picklable
+    result or {"error": ...}."""
+    import multiprocessing as mp
+    import os
+    import traceback
+
+    ctx = mp.get_context("fork")
+    parent, child = ctx.Pipe(duplex=False)
+
+    def target():
+        try:
+            child.send(fn(job))
+        except BaseException as e:  # noqa: BLE001
+            try:
+                child.send({"error": f"{type(e).__name__}: {e}", "traceback": traceback.format_exc()[-2000:]})
+            except Exception:  # noqa: BLE001
+                pass
+        finally:
+            child.close()
+            os._exit(0)
+
+    p = ctx.Process(target=target)
+    p.start()
+    child.close()
+    res = {"error": "no result"}
+    try:
+        res = parent.recv() if parent.poll(timeout) else {"error": "timeout"}
+    except EOFError:
+        res = {"error": "child died"}
+    finally:
+        if p.is_alive():
+            p.kill()
+        p.join()
+    return res
 
 
 def has_nan(spec):
